@@ -216,13 +216,25 @@ func (relay *Relay) serveWriteLoop(
 		pingTickCh = pingTicker.C
 	}
 
+	// result of the ping in flight (nil: none). Waiting for the pong must not stop this loop from
+	// taking messages: the read loop, which has to read the pong, may be blocked sending one here.
+	var pingDone chan error
+
 	for {
 		select {
 		case <-ctx.Done():
 			return fmt.Errorf("serverWrite terminated by ctx: %w", ctx.Err())
 
 		case <-pingTickCh:
-			if err := relay.sendPingWithTimeout(ctx, conn); err != nil {
+			if pingDone == nil {
+				done := make(chan error, 1)
+				pingDone = done
+				go func() { done <- relay.sendPingWithTimeout(ctx, conn) }()
+			}
+
+		case err := <-pingDone:
+			pingDone = nil
+			if err != nil {
 				return fmt.Errorf("failed to send ping: %w", err)
 			}
 
